@@ -183,6 +183,42 @@ Proof.
   rewrite G, mixed_fst. reflexivity.
 Qed.
 
+(* ---- layout of the Final variants: the base struct's field sequence with the non-requested optional tables removed -------- *)
+Inductive subseq {A} : list A -> list A -> Prop :=
+| ss_nil : subseq [] []
+| ss_skip x l1 l2 : subseq l1 l2 -> subseq l1 (x :: l2)
+| ss_keep x l1 l2 : subseq l1 l2 -> subseq (x :: l1) (x :: l2).
+
+Lemma subseq_refl {A} (l : list A) : subseq l l.
+Proof. induction l as [|x l IH]; [apply ss_nil|apply ss_keep, IH]. Qed.
+Lemma subseq_app {A} (a1 a2 b1 b2 : list A) : subseq a1 a2 -> subseq b1 b2 -> subseq (a1 ++ b1) (a2 ++ b2).
+Proof. induction 1 as [|x l1 l2 H IH|x l1 l2 H IH]; cbn [app]; intros B; [exact B|apply ss_skip, IH, B|apply ss_keep, IH, B]. Qed.
+Lemma subseq_filter_map {A B} (f : A -> B) (P : A -> bool) l : subseq (map f (filter P l)) (map f l).
+Proof. induction l as [|x l IH]; cbn [filter map]; [apply ss_nil|]. destruct (P x); cbn [map]; [apply ss_keep|apply ss_skip]; exact IH. Qed.
+
+Definition vt (t : tinfo) : Z * Z := (1, nz (ti_idx t)).
+
+Theorem final_shape g req :
+  shape (final_fields g req) = map vt (sort_ti (g_mand g)) ++ map vt req ++ [(2, 0)].
+Proof.
+  unfold final_fields. rewrite (shape_app_vtbl (fun _ => false)). f_equal.
+  rewrite (shape_app_vtbl (fun _ => false)). reflexivity.
+Qed.
+
+Theorem base_shape g :
+  shape (base_fields g) = map vt (sort_ti (g_mand g)) ++ map vt (sort_ti (g_opt g)) ++ [(2, 0)].
+Proof.
+  unfold base_fields. rewrite (shape_app_vtbl (fun _ => false)). f_equal.
+  rewrite (shape_app_vtbl (fun _ => true)). reflexivity.
+Qed.
+
+Theorem final_restricts_base g mask :
+  subseq (shape (final_fields g (generated_for g mask))) (shape (base_fields g)).
+Proof.
+  rewrite final_shape, base_shape. apply subseq_app; [apply subseq_refl|]. apply subseq_app; [|apply subseq_refl].
+  unfold generated_for, select. apply subseq_filter_map.
+Qed.
+
 (* ---- cglue_impl_group: the vtables enabled for a type are exactly the traits listed for it ---- *)
 Lemma mask_of_perm nm l1 l2 : Permutation l1 l2 -> mask_of nm l1 = mask_of nm l2.
 Proof.
